@@ -15,6 +15,27 @@ SIM_NOTE = ("Trusted base: the simulated kernel (harness/src/sim, fidelity rules
             "libc symbol interposition; interleavings only under sequential consistency; bounded search, not absence.")
 
 CHECKS = {
+    "C01": dict(
+        engine="E1+E2+E3",
+        category="exploration",
+        text="Generated histories of operations that hand memory to the kernel with drops at every life-cycle point, cancel-race outcomes and EINTR/ECANCELED re-issues; the simulated kernel decodes every user region of each consumed SQE and holds it in a tracking global allocator until the final CQE: a free/realloc overlapping a held region, a region outside live heap/static memory, a moved block or changed source bytes is a violation.",
+        design_ref="5/C01",
+        technique="model-based property testing against a simulated kernel + tracking allocator invariant monitor",
+    ),
+    "C02": dict(
+        engine="E1+E3",
+        category="exploration",
+        text="Generated histories with several concurrently in-flight operations carrying unique scripted results, completions posted in generated permutations/batches with consumer polls in between; reference model decides for every poll whether Pending or Ready(v) is legal and what v must be.",
+        design_ref="5/C02",
+        technique="model-based property testing (reference model of per-operation result delivery)",
+    ),
+    "C03": dict(
+        engine="E1+E3",
+        category="exploration",
+        text="C03a quiescence check after every Ring::poll in generated single-thread histories (counting wakers, replaced wakers, over-subscribed 1..4-entry queues): no operation is ready-but-unwoken, operations waiting for queue space are woken once slots are free. Liveness is decided in this safety form only.",
+        design_ref="5/C03",
+        technique="model-based property testing with counting wakers; quiescence invariant after each Ring::poll",
+    ),
     "C04": dict(
         engine="E1+E3 (+E4 for the scheduled sub-check)",
         category="exploration",
@@ -30,6 +51,23 @@ CHECKS = {
         technique="model-based property testing (proptest histories) against a simulated io_uring kernel; exactly-once delivery model + poisoned unpublished slots",
     ),
 }
+
+CHECKS.update({
+    "C06": dict(
+        engine="E1+E2+E3",
+        category="exploration",
+        text="Generated histories with drops at every life-cycle point x scripted cancel-race outcomes x full/non-full queue: SQEs published by each drop are diffed against the model (exactly one ASYNC_CANCEL for that user_data iff running and room), the operation-state block and resources must be live until / dead after the Ring::poll that consumes the final CQE, never freed twice, nothing live at the end.",
+        design_ref="5/C06",
+        technique="model-based property testing; cancel-SQE diff oracle + allocation-lifetime oracle from a tracking allocator",
+    ),
+    "C09": dict(
+        engine="E1+E3",
+        category="fault_enumeration",
+        text="Per operation a scripted fault sequence {EINTR,ECANCELED}^k (k<=3) before a final outcome; the kernel must see k+1 byte-identical SQEs, the future never shows the fault, the result is the last attempt's and contains no bytes scribbled by interrupted attempts.",
+        design_ref="5/C09",
+        technique="fault-injection property testing (generated fault sequences through the simulated kernel)",
+    ),
+})
 
 NOT_YET = {
 }
